@@ -588,7 +588,9 @@ def generate():
         for st in cfg.body:
             if isinstance(st, ast.Expr) and isinstance(st.value, ast.Constant):
                 continue
-            stages.append(_cfg_stage(st))
+            stg = _cfg_stage(st)
+            if stg is not None:
+                stages.append(stg)
         if sorted(stages) != sorted(["removeAll", "levels", "patcher", "extra", "activation", "adds"]):
             raise Unsupported("configure: stages found: %r" % (stages,))
         body += "/-- the stages of `configure`, one per top-level statement -/\ninductive CfgStage where\n" \
@@ -846,28 +848,68 @@ def _self_calls(node):
     for n in ast.walk(node):
         if isinstance(n, ast.Call) and isinstance(n.func, ast.Attribute) and ast.unparse(n.func.value) == "self":
             out.append(n.func.attr)
+        if isinstance(n, ast.Call) and isinstance(n.func, ast.IfExp):
+            for f in (n.func.body, n.func.orelse):
+                if isinstance(f, ast.Attribute) and ast.unparse(f.value) == "self":
+                    out.append(f.attr)
     return out
 
 
+def _loop_over(st, seq, call_ok):
+    """`st` (possibly under `if <seq> is not None:`) iterates over `seq` IN ORDER and makes exactly the calls `call_ok`
+    accepts on each element; comprehension or for loop"""
+    inner = st
+    if isinstance(st, ast.If) and not st.orelse and len(st.body) == 1 and pmatch(_pat("%s is not None" % seq).value, st.test, {}):
+        inner = st.body[0]
+    loops = [n for n in ast.walk(inner) if isinstance(n, (ast.For, ast.comprehension))
+             and ast.unparse(n.iter) in (seq, seq + " or []", seq + " or ()")]
+    if len(loops) != 1:
+        return False
+    if isinstance(inner, ast.For):
+        if inner is not loops[0] or inner.orelse:
+            return False
+        return call_ok(inner.target, inner.body)
+    comps = [n for n in ast.walk(inner) if isinstance(n, ast.ListComp) and len(n.generators) == 1
+             and n.generators[0] is loops[0] and not n.generators[0].ifs]
+    if len(comps) != 1:
+        return False
+    return call_ok(loops[0].target, [ast.Expr(value=comps[0].elt)])
+
+
 def _cfg_stage(st):
-    """which stage of `configure` a top-level statement is; the shapes pin what each stage does"""
+    """which stage of `configure` a top-level statement is (None: a statement that calls nothing and stores nothing
+    in the core, e.g. `ids = []` / `return ids`); the shapes pin what each stage does"""
     calls = _self_calls(st)
     src = ast.unparse(st).replace("\n", " ; ")
     if calls == ["remove"]:
-        # `if handlers is not None: self.remove() / else: handlers = []`
-        if pmatch(_pat("if handlers is not None:\n    self.remove()\nelse:\n    handlers = []"), st, {}):
-            return "removeAll"
+        # `if handlers is not None: self.remove() / else: handlers = []` (either orientation)
+        for shape in ("if handlers is not None:\n    self.remove()\nelse:\n    handlers = []",
+                      "if handlers is None:\n    handlers = []\nelse:\n    self.remove()"):
+            if pmatch(_pat(shape), st, {}):
+                return "removeAll"
     elif calls == ["level"]:
-        if pmatch(_pat("if levels is not None:\n    for M_P in levels:\n        self.level(**M_P)"), st, {}):
+        def ok(target, body):
+            return isinstance(target, ast.Name) and len(body) == 1 and pmatch(_pat("self.level(**%s)" % target.id), body[0], {})
+        if _loop_over(st, "levels", ok):
             return "levels"
     elif sorted(calls) == ["disable", "enable"]:
-        for shape in ("if activation is not None:\n    for M_N, M_S in activation:\n        if M_S:\n            self.enable(M_N)\n"
-                      "        else:\n            self.disable(M_N)",
-                      "if activation is not None:\n    for M_N, M_S in activation:\n        (self.enable if M_S else self.disable)(M_N)"):
-            if pmatch(_pat(shape), st, {}):
-                return "activation"
+        def ok(target, body):
+            if not (isinstance(target, ast.Tuple) and len(target.elts) == 2 and all(isinstance(e, ast.Name) for e in target.elts)):
+                return False
+            n, s_ = target.elts[0].id, target.elts[1].id
+            return len(body) == 1 and any(pmatch(_pat(sh % {"n": n, "s": s_}), body[0], {}) for sh in (
+                "if %(s)s:\n    self.enable(%(n)s)\nelse:\n    self.disable(%(n)s)",
+                "if not %(s)s:\n    self.disable(%(n)s)\nelse:\n    self.enable(%(n)s)",
+                "(self.enable if %(s)s else self.disable)(%(n)s)",
+                "self.enable(%(n)s) if %(s)s else self.disable(%(n)s)"))
+        if _loop_over(st, "activation", ok):
+            return "activation"
     elif calls == ["add"]:
-        if pmatch(_pat("return [self.add(**M_P) for M_P in handlers]"), st, {}):
+        def ok(target, body):
+            if not (isinstance(target, ast.Name) and len(body) == 1):
+                return False
+            return any(pmatch(_pat(sh % target.id), body[0], {}) for sh in ("self.add(**%s)", "M_IDS.append(self.add(**%s))"))
+        if _loop_over(st, "handlers", ok):
             return "adds"
     elif not calls:
         stores = {ast.unparse(t) for n in ast.walk(st) if isinstance(n, ast.Assign) for t in n.targets}
@@ -875,6 +917,8 @@ def _cfg_stage(st):
             return "patcher"
         if not stores and isinstance(st, ast.If) and "extra" in _names(st.test) and "self._core.extra" in src:
             return "extra"
+        if "self._core" not in src and isinstance(st, (ast.Assign, ast.Return)):
+            return None
     raise Unsupported("configure: unrecognised statement: " + src[:160])
 
 
